@@ -493,3 +493,45 @@ func VerifC09Supervisor() {
 		}
 	}
 }
+
+// VerifC10OwnerExit: the supervisor's owner goes away (an exit signal from its parent, a non-child) at
+// any point of the supervisor's life: right after start-up, after a child's death has been handled
+// completely, or while the supervisor is still in the middle of the restart that death caused (stop
+// requests sent to the siblings, not yet honoured). Whatever the type, strategy and phase, the
+// supervisor must then stop every child and terminate; nothing it started keeps running.
+func VerifC10OwnerExit() {
+	sh := lib.VerifShard("cfg", 18)
+	typ := SupervisorType(sh % 3)
+	strategy := SupervisorStrategy((sh / 3) % 3)
+	keep := (sh/9)%2 == 1
+	n := lib.VerifParam("children", 2)
+	lib.VerifClockAdvance(0)
+	e := c08Setup(typ, strategy, keep, n, 10, nil, true)
+	lib.VerifAssert(len(e.p.spawns) == n, "init starts every child")
+	if lib.VerifPick("prelude", 2) == 1 {
+		i := lib.VerifPick("victim", n)
+		pid, live := e.livePid(i)
+		lib.VerifAssume(live)
+		e.childExits(pid, c08Reason(lib.VerifPick("reason", 3)))
+		lib.VerifAssert(e.final == nil, "one child death does not end the supervisor")
+		if e.final != nil {
+			return
+		}
+		if lib.VerifPick("settle", 2) == 1 {
+			lib.VerifAssert(e.drain(3*n+3), "restart completes once the stopped children are gone")
+		} else if len(e.p.pending) > 0 {
+			lib.VerifReach("owner exit during an ongoing restart")
+		}
+	}
+	reason := gen.TerminateReasonShutdown
+	if lib.VerifPick("owner-reason", 2) == 1 {
+		reason = gen.TerminateReasonKill
+	}
+	e.p.deliverExit(e.p.Parent(), reason)
+	e.final = e.b.ProcessRun()
+	ok := e.drain(4*n + 4)
+	lib.VerifAssert(ok, "children asked to stop are eventually gone and handled")
+	lib.VerifAssert(e.final != nil, "a supervisor whose owner went away terminates")
+	lib.VerifAssert(len(e.p.alive) == 0, "nothing the supervisor started keeps running once its owner is gone")
+	lib.VerifReach("owner exit handled")
+}
